@@ -128,7 +128,7 @@ static void matrices(int n, int ndim, int maxlen, DTWSettings *st) {
         for (int triu = 0; triu < 2; triu++) {
             if ((rb < re) != (cb < ce)) continue;                 // both empty (= no block) or both non-empty
             if (rb == re && !(rb == 0 && cb == 0)) continue;
-            if (n > 3 && rnd() % 4 != 0) continue;
+            if (n > 3 && rnd() % (n > 9 ? (unsigned)(n * n * n) : 4u) != 0) continue;   // large n: a few dozen sampled blocks
             DTWBlock b = dtw_block_empty(); b.rb = rb; b.re = (rb == re) ? 0 : re; b.cb = cb; b.ce = (cb == ce) ? 0 : ce; b.triu = triu;
             DTWBlock b2 = b; idx_t len = dtw_distances_length(&b2, n, n); calls[31]++;
 #ifdef VF_OMP
@@ -277,6 +277,9 @@ int main(int argc, char **argv) {
         if (idx % 7 == 0) st.use_pruning = true;
         matrices(n, ndim, maxlen < 5 ? maxlen : 5, &st);
         if (n == 5) { matrices(9, ndim, 4, &st); }
+        // collections beyond 16 / 32 / 64 series: DBA masks of several bytes, index arithmetic of the matrix routines
+        if (n == 5 && w == 1) { matrices(17, ndim, 3, &st); matrices(33, ndim, 3, &st); }
+        if (n == 5 && w == 2 && inner == 0) { matrices(65, ndim, 2, &st); }
     }
     printf("CONFIGS %lu CHECKSUM %.6f\n", ncfg, checksum);
     for (int i = 0; names[i] || i < 33; i++) { if (!names[i]) break; printf("CALLS %s %lu\n", names[i], calls[i]); }
